@@ -47,6 +47,14 @@ pub enum StargateInner {
 }
 use serde::de::DeserializeOwned;
 
+fn stub_app_response(kind: &str, payload: &str) -> AppResponse {
+    let (events, data) = crate::world::stub_response(kind, payload);
+    AppResponse {
+        events: events.into_iter().map(|e| cosmwasm_std::Event::new(e.ty).add_attributes(e.attrs)).collect(),
+        data: data.map(Binary::from),
+    }
+}
+
 fn cs(c: &[Coin]) -> String {
     coins_string(&c.iter().map(|c| (c.denom.clone(), c.amount.u128())).collect::<Vec<_>>())
 }
@@ -310,7 +318,7 @@ impl Module for RecCustom {
                 if self.world.module_call("custom", sender.as_str(), msg.tag.clone()) {
                     bail!("injected custom module failure");
                 }
-                Ok(AppResponse::default())
+                Ok(stub_app_response("custom", &msg.tag))
             }
             CustomInner::Accepting(m) => {
                 self.world.module_call_rec("custom", sender.as_str(), msg.tag.clone());
@@ -398,10 +406,10 @@ impl Module for RecIbc {
         };
         match &self.inner {
             IbcInner::Stub => {
-                if self.world.module_call("ibc", sender.as_str(), payload) {
+                if self.world.module_call("ibc", sender.as_str(), payload.clone()) {
                     bail!("injected ibc module failure");
                 }
-                Ok(AppResponse::default())
+                Ok(stub_app_response("ibc", &payload))
             }
             IbcInner::Accepting(m) => {
                 self.world.module_call_rec("ibc", sender.as_str(), payload);
@@ -487,10 +495,10 @@ impl Module for RecGov {
         };
         match &self.inner {
             GovInner::Stub => {
-                if self.world.module_call("gov", sender.as_str(), payload) {
+                if self.world.module_call("gov", sender.as_str(), payload.clone()) {
                     bail!("injected gov module failure");
                 }
-                Ok(AppResponse::default())
+                Ok(stub_app_response("gov", &payload))
             }
             GovInner::Accepting(m) => {
                 self.world.module_call_rec("gov", sender.as_str(), payload);
@@ -550,10 +558,10 @@ impl Stargate for RecStargate {
         let payload = format!("{}:{}", type_url, crate::storage::hex(value.as_slice()));
         match &self.inner {
             StargateInner::Stub => {
-                if self.world.module_call("stargate", sender.as_str(), payload) {
+                if self.world.module_call("stargate", sender.as_str(), payload.clone()) {
                     bail!("injected stargate failure");
                 }
-                Ok(AppResponse::default())
+                Ok(stub_app_response("stargate", &payload))
             }
             StargateInner::Accepting(m) => {
                 self.world.module_call_rec("stargate", sender.as_str(), payload);
@@ -609,10 +617,10 @@ impl Stargate for RecStargate {
         let payload = format!("{}:{}", msg.type_url, crate::storage::hex(msg.value.as_slice()));
         match &self.inner {
             StargateInner::Stub => {
-                if self.world.module_call("any", sender.as_str(), payload) {
+                if self.world.module_call("any", sender.as_str(), payload.clone()) {
                     bail!("injected any failure");
                 }
-                Ok(AppResponse::default())
+                Ok(stub_app_response("any", &payload))
             }
             StargateInner::Accepting(m) => {
                 self.world.module_call_rec("any", sender.as_str(), payload);
